@@ -10,10 +10,10 @@ import sys
 import tempfile
 
 ROOT = os.path.dirname(os.path.dirname(os.path.abspath(__file__)))
-RELATED = {"C01": ["C01", "C05", "C04", "C10"], "C02": ["C02", "C05", "C04"], "C03": ["C03", "C10", "C19", "C08"], "C04": ["C04", "C01", "C11"],
+RELATED = {"C01": ["C01", "C05", "C04", "C10"], "C02": ["C02", "C05", "C04"], "C03": ["C03", "C11", "C10", "C19", "C08"], "C04": ["C04", "C01", "C11"],
            "C05": ["C05", "C02", "C01"], "C06": ["C06", "C08", "C19", "C12", "C20"], "C07": ["C07", "C08", "C14", "C16"], "C08": ["C08", "C19", "C07", "C04"],
-           "C09": ["C09", "C01"], "C10": ["C10", "C03", "C17"], "C11": ["C11", "C10", "C03"], "C12": ["C12"], "C13": ["C13", "C11"],
-           "C14": ["C14", "C08", "C05", "C17"], "C15": ["C15", "C17"], "C16": ["C16", "C08"], "C17": ["C17", "C10", "C05"], "C18": ["C18"],
+           "C09": ["C09", "C01", "C02"], "C10": ["C10", "C03", "C17"], "C11": ["C11", "C10", "C03"], "C12": ["C12"], "C13": ["C13", "C11"],
+           "C14": ["C14", "C08", "C05", "C17"], "C15": ["C15", "C19", "C17"], "C16": ["C16", "C08"], "C17": ["C17", "C10", "C05"], "C18": ["C18"],
            "C19": ["C19", "C08", "C10"], "C20": ["C20"], "X20": ["C20"], "H-s": ["C01", "C05", "C04"]}
 
 
